@@ -494,6 +494,36 @@ impl std::io::Write for Limited {
 }
 
 /// `DECODE family ef text urltab`
+#[derive(Deserialize, Default, PartialEq, Eq, PartialOrd, Ord, Debug, Clone)]
+struct Word(String);
+#[derive(Deserialize)]
+struct AppScopes {
+    #[serde(default, deserialize_with = "oauth2::helpers::deserialize_space_delimited_vec")]
+    scope: Vec<String>,
+}
+#[derive(Deserialize)]
+struct AppScopesSet {
+    #[serde(default, deserialize_with = "oauth2::helpers::deserialize_space_delimited_vec")]
+    scope: std::collections::BTreeSet<String>,
+}
+#[derive(Deserialize)]
+struct AppScopesNewt {
+    #[serde(default, deserialize_with = "oauth2::helpers::deserialize_space_delimited_vec")]
+    scope: Vec<Word>,
+}
+#[derive(Serialize)]
+struct AppScopesOut {
+    #[serde(serialize_with = "oauth2::helpers::serialize_space_delimited_vec")]
+    scope: Option<Vec<String>>,
+    #[serde(serialize_with = "oauth2::helpers::serialize_space_delimited_vec")]
+    none: Option<Vec<String>>,
+}
+#[derive(Deserialize)]
+struct AppAud {
+    #[serde(default, deserialize_with = "oauth2::helpers::deserialize_optional_string_or_vec_string")]
+    aud: Option<Vec<String>>,
+}
+
 /// `SLOWRT token-doc introspection-doc device-doc error-doc`: the four documents are read, written
 /// at once, and written and read again after more than a second of wall-clock time: the text and
 /// the accessors may not depend on WHEN a value is written (or on how long ago it was read).
@@ -658,6 +688,54 @@ pub fn decode(ws: &[&str]) -> String {
         if let Ok(v) = serde_json::from_slice::<BasicTokenIntrospectionResponse>(&text) {
             if let Some(d) = custom_token_types_agree(&text, v.token_type(), true) {
                 return format!("custom-token-type-differs {}", d);
+            }
+        }
+    }
+    // the public serde helpers used directly by an application, with containers of its own (Vec<String>, a sorted set, a
+    // newtype element; string-or-list for `aud`): they split, join and read exactly as the library's own members do
+    if ws[1] == "E" && (ws[0] == "token" || ws[0] == "introspection") {
+        let lib_scopes: Option<Option<Vec<String>>> = if ws[0] == "token" {
+            serde_json::from_slice::<BasicTokenResponse>(&text).ok().map(|v| v.scopes().map(|l| l.iter().map(|s| s.to_string()).collect()))
+        } else {
+            serde_json::from_slice::<BasicTokenIntrospectionResponse>(&text).ok().map(|v| v.scopes().map(|l| l.iter().map(|s| s.to_string()).collect()))
+        };
+        if let Some(lib) = lib_scopes {
+            match (serde_json::from_slice::<AppScopes>(&text), serde_json::from_slice::<AppScopesSet>(&text), serde_json::from_slice::<AppScopesNewt>(&text)) {
+                (Ok(app), Ok(app2), Ok(app3)) => {
+                    let want = lib.clone().unwrap_or_default();
+                    let set: std::collections::BTreeSet<String> = want.iter().cloned().collect();
+                    let newt: Vec<String> = app3.scope.iter().map(|w| w.0.clone()).collect();
+                    if app.scope != want || app2.scope != set || newt != want {
+                        return format!("helper-differs-from-the-library split lib={:?} app={:?}", lib, app.scope);
+                    }
+                    // written back through the public serialising helper: the library's own text of the member
+                    if let Some(l) = &lib {
+                        let out = serde_json::to_value(AppScopesOut { scope: Some(l.clone()), none: None }).unwrap();
+                        let lib_text = if ws[0] == "token" {
+                            serde_json::from_slice::<BasicTokenResponse>(&text).ok().and_then(|v| serde_json::to_value(&v).ok())
+                        } else {
+                            serde_json::from_slice::<BasicTokenIntrospectionResponse>(&text).ok().and_then(|v| serde_json::to_value(&v).ok())
+                        };
+                        if let Some(lt) = lib_text {
+                            if out.get("scope") != lt.get("scope") || out.get("none") != Some(&serde_json::Value::Null) {
+                                return format!("helper-differs-from-the-library join lib={:?} app={:?}", lt.get("scope"), out.get("scope"));
+                            }
+                        }
+                    }
+                }
+                _ => return "helper-refuses-what-the-library-accepts".to_string(),
+            }
+        }
+        if ws[0] == "introspection" {
+            if let Ok(v) = serde_json::from_slice::<BasicTokenIntrospectionResponse>(&text) {
+                match serde_json::from_slice::<AppAud>(&text) {
+                    Ok(a) => {
+                        if a.aud.as_ref() != v.aud() {
+                            return format!("helper-differs-from-the-library aud lib={:?} app={:?}", v.aud(), a.aud);
+                        }
+                    }
+                    Err(_) => return "aud-helper-refuses-what-the-library-accepts".to_string(),
+                }
             }
         }
     }
